@@ -58,7 +58,7 @@ func (s *c06S) body(tag string, tagno int, recvDig string) string {
 		args = append(args, recvDig)
 	}
 	d := fmt.Sprint(tagno)
-	mul := []int{1, 7, 31}
+	mul := []int{1, 7, 31, 127}
 	for i, k := range s.P {
 		args = append(args, fmt.Sprintf("p%d", i))
 		d += fmt.Sprintf(" + %s*%d", k.dig(fmt.Sprintf("p%d", i)), mul[i])
